@@ -14,6 +14,8 @@ import (
 	"github.com/uber-go/tally/v4/m3"
 	m3thrift "github.com/uber-go/tally/v4/m3/thrift/v2"
 
+	tstatsd "github.com/uber-go/tally/v4/statsd"
+
 	"verifharness/mon"
 )
 
@@ -66,6 +68,9 @@ func runStack(c *mon.Ctx) {
 			promKinds = kinds
 			c17Values(c, r.Fork(2))
 			promKinds = nil
+			if c.Prop != "C03" {
+				stackStatsd(c, r.Fork(3), kinds)
+			}
 		}
 	})
 }
@@ -492,4 +497,162 @@ func stackM3Identity(c *mon.Ctx, r *mon.Rand, caseNo int) {
 	if c.WantSample() {
 		c.Sample(map[string]interface{}{"config": desc, "datagrams": len(msgs)})
 	}
+}
+
+// stackStatsd: the plain-reporter path through the real StatsD reporter (the
+// client is a recording statter, so there is no network in between): counter
+// deltas arrive as Inc calls, gauge values as Gauge calls (integers here, the
+// reporter truncates), timer values as TimingDuration calls, under the full
+// dotted name (the reporter has no tags).
+func stackStatsd(c *mon.Ctx, r *mon.Rand, kinds map[string]bool) {
+	st := &recStatter{}
+	rep := tstatsd.NewReporter(st, tstatsd.Options{})
+	prefix := r.Pick("", "svc")
+	root, closer := vNewRoot(tally.ScopeOptions{Prefix: prefix, Reporter: rep, OmitCardinalityMetrics: true}, 0, uint(r.Range(0, 3)))
+	nW := r.Range(2, 5)
+	iters := r.Range(30, 400)
+	desc := map[string]interface{}{"mode": "stack/statsd", "prefix": prefix, "workers": nW, "iterations": iters}
+	c.Eval(1)
+	stopW := c.Watchdog(300*time.Second, "no-progress", desc)
+	defer stopW()
+	type book struct {
+		ctr    map[string]int64
+		gLast  map[string]int64
+		gAll   map[string]map[int64]bool
+		timers map[string]map[time.Duration]int
+	}
+	books := make([]*book, nW)
+	shared := root.SubScope("all")
+	sharedC, sharedT := shared.Counter("c"), shared.Timer("t")
+	name := func(parts ...string) string { return mon.RefName(prefix, ".", parts...) }
+	var wg sync.WaitGroup
+	var stop int32
+	for w := 0; w < nW; w++ {
+		b := &book{ctr: map[string]int64{}, gLast: map[string]int64{}, gAll: map[string]map[int64]bool{}, timers: map[string]map[time.Duration]int{}}
+		books[w] = b
+		wg.Add(1)
+		wr := r.Fork(uint64(w + 1))
+		go func(w int) {
+			defer wg.Done()
+			c.Guard("panic-scope-statsd", func() interface{} { return desc }, func() {
+				sub := "w" + strconv.Itoa(w)
+				own := root.SubScope(sub)
+				for i := 0; i < iters; i++ {
+					switch wr.Intn(5) {
+					case 0:
+						v := int64(wr.Range(1, 1000))
+						own.Counter("c").Inc(v)
+						b.ctr[name(sub, "c")] += v
+					case 1:
+						v := int64(w+1)<<20 | int64(i)
+						own.Gauge("g").Update(float64(v))
+						k := name(sub, "g")
+						b.gLast[k] = v
+						if b.gAll[k] == nil {
+							b.gAll[k] = map[int64]bool{}
+						}
+						b.gAll[k][v] = true
+					case 2:
+						d := time.Duration(int64(w+1)<<32 | int64(i))
+						own.Timer("t").Record(d)
+						k := name(sub, "t")
+						if b.timers[k] == nil {
+							b.timers[k] = map[time.Duration]int{}
+						}
+						b.timers[k][d]++
+					case 3:
+						v := int64(wr.Range(1, 9))
+						sharedC.Inc(v)
+						b.ctr[name("all", "c")] += v
+					default:
+						d := time.Duration(int64(w+1)<<40 | int64(i))
+						sharedT.Record(d)
+						k := name("all", "t")
+						if b.timers[k] == nil {
+							b.timers[k] = map[time.Duration]int{}
+						}
+						b.timers[k][d]++
+					}
+				}
+			})
+		}(w)
+	}
+	var wgP sync.WaitGroup
+	wgP.Add(1)
+	go func() {
+		defer wgP.Done()
+		for atomic.LoadInt32(&stop) == 0 {
+			tally.VerifReportPass(root)
+			time.Sleep(50 * time.Microsecond)
+		}
+	}()
+	wg.Wait()
+	atomic.StoreInt32(&stop, 1)
+	wgP.Wait()
+	closer.Close()
+	bad := func(kind, sig, why string) {
+		if kinds[kind] {
+			c.Violation("stack-statsd/"+sig, map[string]interface{}{"why": why, "case": desc})
+		}
+	}
+	gotCtr := map[string]int64{}
+	gotGLast := map[string]int64{}
+	gotTimers := map[string]map[time.Duration]int{}
+	st.mu.Lock()
+	calls := append([]statCall(nil), st.calls...)
+	st.mu.Unlock()
+	c.Event("statsd-client-calls", int64(len(calls)))
+	wantG := map[string]map[int64]bool{}
+	for _, b := range books {
+		for k, set := range b.gAll {
+			wantG[k] = set
+		}
+	}
+	for _, cl := range calls {
+		switch cl.Method {
+		case "Inc":
+			gotCtr[cl.Name] += cl.I
+		case "Gauge":
+			gotGLast[cl.Name] = cl.I
+			if !wantG[cl.Name][cl.I] {
+				bad("gauge", "gauge-invented", fmt.Sprintf("%s: the client received the gauge value %d, never passed to Update", cl.Name, cl.I))
+			}
+		case "TimingDuration":
+			if gotTimers[cl.Name] == nil {
+				gotTimers[cl.Name] = map[time.Duration]int{}
+			}
+			gotTimers[cl.Name][cl.D]++
+		}
+	}
+	wantCtr := map[string]int64{}
+	wantT := map[string]map[time.Duration]int{}
+	for _, b := range books {
+		for k, v := range b.ctr {
+			wantCtr[k] += v
+		}
+		for k, v := range b.gLast {
+			if gotGLast[k] != v {
+				bad("gauge", "gauge-last", fmt.Sprintf("%s: the last gauge value the client received is %d, the last update %d", k, gotGLast[k], v))
+			}
+		}
+		for k, tm := range b.timers {
+			if wantT[k] == nil {
+				wantT[k] = map[time.Duration]int{}
+			}
+			for d, n := range tm {
+				wantT[k][d] += n
+			}
+		}
+	}
+	for k, v := range wantCtr {
+		if gotCtr[k] != v {
+			bad("counter", "counter-sum", fmt.Sprintf("%s: the increments the client received add up to %d, the increments made to %d", k, gotCtr[k], v))
+		}
+	}
+	for k, tm := range wantT {
+		if fmt.Sprint(gotTimers[k]) != fmt.Sprint(tm) {
+			bad("timer", "timer-multiset", fmt.Sprintf("%s: %d distinct timer values recorded, the client received %d distinct values (or other multiplicities)", k, len(tm), len(gotTimers[k])))
+		}
+	}
+	c.Distinct(mon.Hash64(fmt.Sprint(desc), fmt.Sprint(r.U64())))
 }
